@@ -273,10 +273,22 @@ def check_activation_flags(check, an: Analysis, rule: str):
         'self.signal is None or not self.signal._revoked', mode='eval').body)),
         where_fn(act_bool), 'an activation counts unless its signal was revoked')
     revoke = an.method('usim._core.loop.Interrupt', 'revoke')
-    stores = [n_ for n_ in ast.walk(revoke.node) if isinstance(n_, ast.Assign)]
-    check.instance(rule, 'Interrupt.revoke', len(stores) == 1 and
-                   ast.unparse(stores[0]) == 'self._revoked = True', where_fn(revoke),
-                   'revoking sets the flag the loop tests')
+    # on every way through: revoking a signal that is not scheduled *yet* still has to
+    # disarm it (a scope that has closed may be told to cancel itself afterwards)
+    n_paths, unset = 0, None
+    for path in an.paths(an.callee('usim._core.loop.Interrupt', 'revoke')):
+        if not path.normal:
+            continue
+        n_paths += 1
+        stores = [e for e in path.events if e.kind == 'store'
+                  and e.data.get('path') == 'self._revoked']
+        if not stores or not all(isinstance(e.data.get('value'), ast.Constant)
+                                 and e.data['value'].value is True for e in stores):
+            unset = unset or (path, len(path.events) - 1)
+    check.instance(rule, 'Interrupt.revoke', unset is None and n_paths > 0, where_fn(revoke),
+                   'revoking sets the flag the loop tests, on every way through '
+                   '(%d paths)' % n_paths,
+                   path=rules.path_lines(*unset) if unset else None, analysed=n_paths)
     init = an.method('usim._core.loop.Interrupt', '__init__')
     inits = {ast.unparse(n_.targets[0]): ast.unparse(n_.value)
              for n_ in ast.walk(init.node) if isinstance(n_, ast.Assign)}
